@@ -122,7 +122,10 @@ def run(ctx, prop=PROP, judge=None, what=WHAT):
                             "NUL bytes, lines over 128 KiB and the return-code marker are outside the property's domain"])
 
 
-NAMESETS = [[b"n1", b"n2", b"n3"], [b"foo", b"foo1", b"foo-ib"], [b"a.dom", b"b.dom"], [b"a.x.org", b"b.y.org", b"c"], [b"10.0.0.1", b"10.0.0.2"],
+UY = {"SCHED_UYIELD": "1"}     # library-lock releases are preemption points too (code right after cbuf_read interleaves)
+NAMESETS = [[b"n1.example.co", b"n2.example.com"], [b"a.Dom", b"b.dom"], [b"x.lab", b"y.lab.example.com", b"z.lab"], [b"p.d", b"q.d", b"r.dd"],
+            [b"u.site", b"v.site", b"w.site"], [b"k1.a.b", b"k2.a.b", b"k3.b"],
+            [b"n1", b"n2", b"n3"], [b"foo", b"foo1", b"foo-ib"], [b"a.dom", b"b.dom"], [b"a.x.org", b"b.y.org", b"c"], [b"10.0.0.1", b"10.0.0.2"],
             [b"h1.d", b"h2.d", b"h3.d", b"h4.d"], [b"n1", b"n10", b"n100"], [b"a", b"ab", b"abc", b"abcd"]]
 
 
@@ -132,13 +135,21 @@ def sched_part(ctx, r, quick, judge):
     bad = 0
     nrun = 150 if quick else 4000
     for k in range(nrun):
-        names = r.choice(NAMESETS)
+        names = list(r.choice(NAMESETS))
+        if r.chance(1, 3):
+            names.reverse()
         doms = set(n[n.index(b"."):] for n in names if b"." in n)
-        keep = len(doms) > 1
+        keep = len(doms) > 1              # dsh(): labels keep the domain as soon as two targets differ in theirs (exact comparison)
         hosts, streams = [], {}
+        tails = r.chance(1, 3)            # every host ends in an unterminated tail: all workers pass through the tail path at once
         for nm in names:
-            so = outeng.gen_stream(r) if r.chance(4, 5) else b""
-            se = outeng.gen_stream(r) if r.chance(1, 3) else b""
+            if tails:
+                so = b"".join(bytes(r.choice(b"abcxyz019 ") for _ in range(r.range(0, 12))) + b"\n" for _ in range(r.range(0, 2))) + \
+                     nm + b"-tail-" + bytes(r.choice(b"abcdefgh") for _ in range(r.range(1, 30)))
+                se = (b"E" + nm + bytes(r.choice(b"qrstuv") for _ in range(r.range(1, 20)))) if r.chance(1, 2) else b""
+            else:
+                so = outeng.gen_stream(r) if r.chance(4, 5) else b""
+                se = outeng.gen_stream(r) if r.chance(1, 3) else b""
             if len(so) > 3000:
                 so = so[:3000]
             if len(se) > 3000:
@@ -154,7 +165,8 @@ def sched_part(ctx, r, quick, judge):
                         out.append("A" + hexs(s[prev:c])); prev = c
                 return "/".join(out)
             hosts.append((nm.decode(), "o", items(so), items(se), 0))
-        ru = eng.run(["-R", "sim", "-f", str(r.range(1, len(names))), "-w", b",".join(names).decode(), "cmd"], hosts, seed=r.next() % (1 << 31))
+        fan = r.range(1, len(names))
+        ru = eng.run(["-R", "sim", "-f", str(fan), "-w", b",".join(names).decode(), "cmd"], hosts, seed=r.next() % (1 << 31), env=UY)
         who2host = {}
         for st, kind, f in ru.events:
             if kind == "CONNBEGIN":
@@ -174,7 +186,7 @@ def sched_part(ctx, r, quick, judge):
                     break
         if problem:
             bad += 1
-            ctx.violation("schedule", case={"names": [n.decode() for n in names], "hosts": hosts, "seed": ru.seed, "schedule": [c for c in ru.choices if c != "sig"]},
+            ctx.violation("schedule", case={"names": [n.decode() for n in names], "fanout": fan, "hosts": hosts, "seed": ru.seed, "schedule": [c for c in ru.choices if c != "sig"]},
                           expected="every host's records, whole and under its own label", observed=ru.summary(), engine="sched",
                           detail=problem + "; several hosts streaming at once, schedule of %d steps" % len(ru.choices))
             if bad >= 3:
@@ -187,6 +199,14 @@ def replay(ctx, path):
     ctx.gen_params()
     eng = outeng.Out(ctx)
     c = rec["case"]
+    if isinstance(c, dict):
+        import schedeng
+        se = schedeng.Sched(ctx)
+        ru = se.run(["-R", "sim", "-f", str(c.get("fanout", 2)), "-w", ",".join(c["names"]), "cmd"], [tuple(h) for h in c["hosts"]], seed=c["seed"], env=UY)
+        print("run now (same seed):", ru.summary()[:1500])
+        for o in ru.outs:
+            print("  ", o)
+        return 0
     keep = c.endswith(" #K")
     c = c[:-3] if keep else c
     print("impl now :", eng.run_impl([c], keep)[0][:600])
